@@ -1336,6 +1336,26 @@ def suite_scopes(exe, tier, seed):
             viol.append({"unit": "e2e", "fn": "ensure_unique_variables / SSA renaming (whole pipeline)", "obligation": f"e2e|scopes|{ob}", "props": ["C10"],
                          "input": inp, "what": what, "replay": "python3 run/e2e.py scopes quick 0"})
     try:
+        # ---- repeated parameter names are reported (CS0002), wherever the repetition stands, for functions and templates
+        for (pname, params) in [("first-and-second", "a, a"), ("first-and-third", "a, b, a"), ("second-and-third", "b, a, a"), ("last-two-of-four", "c, b, a, a"), ("all-distinct", "a, b, c")]:
+            for kind in ("function", "template"):
+                if kind == "function":
+                    psrc = f"pragma circom 2.0.0;\nfunction f({params}) {{ return a; }}\ntemplate T() {{ signal input in; signal output out; out <== in + f({', '.join('1' for _ in params.split(','))}); }}\ncomponent main = T();\n"
+                else:
+                    psrc = f"pragma circom 2.0.0;\ntemplate T({params}) {{ signal input in; signal output out; out <== in + a; }}\ncomponent main = T({', '.join('1' for _ in params.split(','))});\n"
+                path = os.path.join(d, "p.circom")
+                open(path, "w").write(psrc)
+                rc, out, err = run_cli(exe, ["-v", path], d)
+                evals += 1
+                nontrivial += 1
+                got = [ln for (code, ln, _) in coded_findings(out) if code == "CS0002"]
+                want = [] if pname == "all-distinct" else [2]
+                if rc is None or rc not in (0, 1) or "panicked" in err:
+                    add("run", {"case": pname, "source": psrc}, f"parameters ({params}) of a {kind}: the tool aborted or hung (exit {rc})")
+                elif got != want:
+                    add(f"params:{pname}", {"case": pname, "kind": kind, "source": psrc}, f"parameters ({params}) of a {kind}: parameter-name-collision findings (CS0002) on lines {got}, expected {want}")
+                elif want and rc == 0:
+                    add(f"params:{pname}", {"case": pname, "kind": kind, "source": psrc}, f"parameters ({params}) of a {kind}: the collision is displayed but the exit status is 0")
         for pi in range(n_prog):
             rng = random.Random(7000 * seed + pi)
             src, shadows, uses = scopes_program(rng, 4 + pi % 12)
@@ -1411,7 +1431,7 @@ def suite_scopes(exe, tier, seed):
         shutil.rmtree(d, ignore_errors=True)
     return {"unit": "e2e-scopes", "evaluations": evals, "distinct_nontrivial": nontrivial, "exhaustive": False,
             "rule": "the real CLI on generated functions nesting if / else / while / for blocks up to depth 3, declaring variables named x, y, x_0, x_1, y_0, p (p is also a parameter; x_0 is what a renamed x looks like) with one constant each and never assigning them again: a shadowing warning (CS0001) stands at exactly the declarations that redeclare a name visible there (block scoping, parameters outermost, a `for` opens a scope for its variable), once, with the innermost visible declaration as related location; and where a use `if (NAME == K)` compares with the constant of the declaration the name refers to, the tool never says `always false` (nor anything about a parameter or loop variable); and, through the real parser + lifting + SSA conversion (tools/replay/parser ssa-reads), every read of a local variable names a parameter or a variable that some statement writes with the same (name, suffix, version), and no versioned variable is written twice",
-            "bound": f"{n_prog} generated functions of 4..15 actions (seeded)", "samples": samples, "violations": viol}
+            "bound": f"{n_prog} generated functions of 4..15 actions (seeded); 5 parameter lists x {{function, template}} for the collision report", "samples": samples, "violations": viol}
 
 
 def main():
